@@ -60,7 +60,8 @@ def run_case(tape, tier):
     read_steps = {}
     for _ in range(tape.draw("n_read_steps", 3)):
         read_steps[tape.draw("read_ix", 8 * n + 8)] = tape.pick("j_read", [0.3 * T, 2.5 * T, 10.0])
-    script = dict(tock_c=tock_c, tock_run=tock_run if change else None, gap=gap, j0=j0, cycles=cyc, sleeps=sleeps,
+    real_late = tape.flag("real_set_after_construction", 1, 4)
+    script = dict(real_late=real_late, tock_c=tock_c, tock_run=tock_run if change else None, gap=gap, j0=j0, cycles=cyc, sleeps=sleeps,
                   read_steps=sorted(read_steps.items()))
 
     clock = sched.SimClock()
@@ -128,7 +129,11 @@ def run_case(tape, tier):
     problem = None
     with sched.clock_installed(clock):
         try:
-            doist = doing.Doist(tock=tock_c, real=True, doers=[Pacer()])
+            if real_late:
+                doist = doing.Doist(tock=tock_c, doers=[Pacer()])      # real-time mode switched on after construction
+                doist.real = True
+            else:
+                doist = doing.Doist(tock=tock_c, real=True, doers=[Pacer()])
             clock.true += gap
             if j0:
                 clock.offset -= j0
